@@ -15,7 +15,7 @@ ENDINGS = ['normal', 'failing', 'hook_raise', 'kbd', 'stop']
 RULE = ('in-process runs in fresh interpreters for subsets of {--gc a [b c], -G flag, --coverage, --profile cProfile, --buffer, '
         'warnings argument, -D} x endings {normal, failing tests, exception escaping from a layer per-test hook, KeyboardInterrupt in a '
         'test, stop-on-error}: quick = pairwise covering sample plus random subsets, thorough = all 2^7 x 5 (with -D only where no '
-        'failure occurs); a probe test records the state during the test phase; non-trivial = at least two options active')
+        'failure occurs); a probe test records the state during the test phase; some worlds add a test that itself meddles with sys.path and (where the matching option is active) gc thresholds, gc flags and warnings filters; non-trivial = at least two options active')
 EXHAUSTIVE = {'thorough': 'all 128 option subsets x 5 endings (-D restricted to failure-free endings)'}
 TRUSTED_BASE = ['gc, traceback, sys.settrace/threading trace hook, sys.monitoring profiler slot, warnings.filters, sys.stdout/err are '
                 'observed through a canonical snapshot taken before / during (inside a test) / after Runner.run()']
@@ -24,7 +24,7 @@ ASSUMPTIONS = ['the trace and profile hooks are unset before the run (a hook ins
 FIELDS = list(range(11))
 
 
-def mk(subset, ending):
+def mk(subset, ending, meddle=False):
     opts = []
     world = {'layers': [{'name': 'La', 'bases': [], 'kind': 'instance',
                          'hooks': {'setUp': ['ok'], 'tearDown': ['ok'], 'testSetUp': ['ok'], 'testTearDown': ['ok']}}]}
@@ -43,6 +43,16 @@ def mk(subset, ending):
     if 'D' in subset and ending == 'normal':
         opts += ['-D']
     tests = [{'layer': 0, 'probe': True}, {'layer': 0}]
+    if meddle:
+        # a test that itself changes state the runner manages or relies on; the features must still restore what they changed
+        acts = ['syspath_remove']
+        if 'gc' in subset:
+            acts.append('gc_threshold')
+        if 'G' in subset:
+            acts.append('gc_debug')
+        if 'warnings' in subset:
+            acts.append('warn_reset')
+        tests.append({'layer': 0, 'meddle': acts})
     if ending == 'failing':
         tests += [{'layer': 0, 'body': 'fail'}, {'layer': 0, 'body': 'error', 'tearDown': 'error'}]
     elif ending == 'hook_raise':
@@ -67,6 +77,7 @@ def generate(rng, tier, rep):
             for sub in itertools.combinations(OPTS, k):
                 for e in ENDINGS:
                     cases.append(mk(set(sub), e))
+                cases.append(mk(set(sub), ENDINGS[k % 5], meddle=True))
     else:
         # all pairs of options, each with every ending, plus singletons, empty and full sets, plus random subsets
         subsets = [set(), set(OPTS)] + [{a} for a in OPTS] + [{a, b} for a, b in itertools.combinations(OPTS, 2)]
@@ -76,12 +87,16 @@ def generate(rng, tier, rep):
         for _ in range(40 if tier == 'quick' else 200):
             sub = set(o for o in OPTS if rng.random() < 0.5)
             cases.append(mk(sub, rng.choice(ENDINGS)))
+        for i, sub in enumerate(subsets):
+            if i % 2 == 0:
+                cases.append(mk(sub, ENDINGS[i % 5], meddle=True))
     for i, c in enumerate(cases):
         c['preset'] = bool(i % 2)
     for c in cases:
         rep.count('preset=%s' % c['preset'])
         rep.count('ending=' + c['ending'])
         rep.count('n_options=%d' % len(c['subset']))
+        rep.count('meddling_test=%s' % any(T.get('meddle') for T in c['tests']))
     return cases
 
 
